@@ -91,6 +91,9 @@ def _hoist_one(top):
         for key, v in n.items():
             if key in ("sp", "osp", "pat", "to", "callee"):
                 continue
+            if is_top and ((n.get("k") == "If" and key in ("then", "else")) or (n.get("k") == "Match" and key == "arms")
+                           or (n.get("k") == "Block")):
+                continue     # the branches of the statement itself are handled structurally by elim_block, only operands are hoisted
             if isinstance(v, dict) and "k" in v:
                 r = find(v, False)
                 if r is not None:
@@ -249,6 +252,81 @@ def elim_value(e, like, ty):
     return _block(s1, t1, e, ty)
 
 
+def _strip(n):
+    while isinstance(n, dict) and n.get("k") in ("Use", "Type"):
+        n = n["e"]
+    return n
+
+
+def _ctor_of(n):
+    n = _strip(n)
+    if isinstance(n, dict) and n.get("k") == "Call":
+        c = hir.callee_of(n) or ""
+        return c.rsplit("::", 1)[-1], n
+    if isinstance(n, dict) and n.get("k") == "Path":
+        return str((n.get("to") or {}).get("path") or "").rsplit("::", 1)[-1], n
+    return None, n
+
+
+def _err_type(ty):
+    """`Result<T, E>` -> ("Result", E); `Option<T>` -> ("Option", None); else None"""
+    ty = str(ty or "")
+    if ty.startswith("std::option::Option<"):
+        return ("Option", None)
+    if ty.startswith("std::result::Result<") and ty.endswith(">"):
+        inner = ty[len("std::result::Result<"):-1]
+        depth = 0
+        for i, ch in enumerate(inner):
+            if ch in "<([":
+                depth += 1
+            elif ch in ">)]":
+                depth -= 1
+            elif ch == "," and depth == 0:
+                return ("Result", inner[i + 1:].strip())
+    return None
+
+
+def body_for_try(fn_hir):
+    """A fallible helper called as `helper(..)?` whose every `return` hands back a failure (`return Err(..)`, `bail!`, an inner
+    `?`, `return None`): its statements can stand in the caller as they are - the early failure returns are then early failure
+    returns of the caller, which is what `?` makes of them - and only the success value is needed.  Returns (stmts, tail value
+    expression or None when the tail is not literally Ok(v)/Some(v), residual type) or raises Cannot.  Returns inside loops are
+    fine here (nothing is eliminated)."""
+    b = fn_hir["body"]
+    rt = _err_type(b.get("ty"))
+    if rt is None:
+        raise Cannot("not a Result/Option function")
+    want = "Err" if rt[0] == "Result" else "None"
+
+    def rets(n, out):
+        if isinstance(n, list):
+            for x in n:
+                rets(x, out)
+            return
+        if not isinstance(n, dict) or n.get("k") == "Closure":
+            return
+        if n.get("k") == "Ret":
+            out.append(n)
+        for key, v in n.items():
+            if isinstance(v, (dict, list)) and key not in ("sp", "osp"):
+                rets(v, out)
+    found = []
+    rets(b, found)
+    for r in found:
+        name, _ = _ctor_of(r.get("e"))
+        if name not in (want, "from_residual"):
+            raise Cannot("an early return that is not a failure")
+    body = copy.deepcopy(b)
+    stmts, tail = _as_stmts(body)
+    if tail is None:
+        raise Cannot("no tail value")
+    name, node = _ctor_of(tail)
+    ok = "Ok" if rt[0] == "Result" else "Some"
+    if name == ok and node.get("k") == "Call" and len(node.get("args") or []) == 1:
+        return stmts, node["args"][0], None, rt
+    return stmts, None, tail, rt
+
+
 def body_as_value(fn_hir, like):
     b = fn_hir["body"]
     ty = b.get("ty")
@@ -348,13 +426,99 @@ def _local_names(fn_hir):
     return names
 
 
+def _pos(sp, end=False):
+    if not sp or len(sp) < 4:
+        return (0, 0)
+    return (sp[2], sp[3]) if end else (sp[0], sp[1])
+
+
+_BIG = (10 ** 9, 0)
+
+
+class _Names(dict):
+    """caller-side names: name -> [first binding position, last use position].  A helper local needs a fresh name only when
+    it would stand between a caller binding of that name and a later use of it."""
+
+    @classmethod
+    def of(cls, fn_hir):
+        out = cls()
+        for p in fn_hir.get("params", []):
+            for x in hir.pat_names(p["pat"]):
+                out[x] = [(0, 0), (0, 0)]
+        stack = [fn_hir["body"]]
+        while stack:
+            n = stack.pop()
+            if isinstance(n, list):
+                stack.extend(n)
+                continue
+            if not isinstance(n, dict):
+                continue
+            if n.get("k") == "PBind":
+                e = out.setdefault(n["name"], [_BIG, (0, 0)])
+                e[0] = min(e[0], _pos(n.get("sp")))
+            to = n.get("to")
+            if n.get("k") == "Path" and isinstance(to, dict) and to.get("res") == "local":
+                e = out.setdefault(to["name"], [_BIG, (0, 0)])
+                e[1] = max(e[1], _pos(n.get("sp"), True))
+            stack.extend(v for k_, v in n.items() if isinstance(v, (dict, list)) and k_ not in ("sp", "osp"))
+        return out
+
+    def clashes(self, name, sp):
+        e = self.get(name)
+        return e is not None and e[0] <= _pos(sp, True) and e[1] >= _pos(sp)
+
+    def add(self, name, sp=None):
+        e = self.setdefault(name, [_pos(sp), _pos(sp, True)])
+        e[0] = min(e[0], _pos(sp))
+        e[1] = max(e[1], _pos(sp, True))
+
+
 class HirInliner:
     def __init__(self, bodies):
         self.bodies = bodies          # helper path -> (fn record, value body or None)
         self.counter = 0
 
-    def expand(self, call, helper_path, caller_names):
-        fn, value = self.bodies[helper_path]
+    def expand_try(self, m, caller_names, targets=None):
+        """`helper(..)?` where the helper could not be turned into a value (see body_for_try)"""
+        if not (m.get("k") == "Match" and isinstance(m.get("e"), dict) and m["e"].get("k") == "Call"
+                and str(hir.callee_of(m["e"]) or "").endswith("Try::branch") and len(m["e"].get("args") or []) == 1):
+            return None, None
+        call = _strip(m["e"]["args"][0])
+        if not (isinstance(call, dict) and call.get("k") in ("Call", "MethodCall")):
+            return None, None
+        c = hir.callee_of(call)
+        if targets is not None and c not in targets:
+            return None, None
+        ent = self.bodies.get(c)
+        if ent is None or len(ent) < 3 or ent[2] is None:
+            return None, None
+        stmts, value, tail, rt = ent[2]
+        # the failure type handed on by `?` must be the helper's own (no From conversion in between)
+        here = None
+        for a in m.get("arms") or []:
+            for n, _ in hir.walk(a["body"]):
+                if n.get("k") == "Ret" and isinstance(n.get("e"), dict):
+                    here = _err_type(n["e"].get("ty"))
+        if here is None or here != rt:
+            return None, None
+        body = _block(stmts, value if value is not None else tail, call, (value or tail).get("ty"))
+        blk = self.expand(call, c, caller_names, body=body)
+        if blk is None:
+            return None, None
+        if value is not None:
+            blk["ty"] = m.get("ty")
+            return blk, c
+        # the tail is some other fallible expression t: `{ S; t }?` is `{ S; t? }`
+        inner = copy.copy(m)
+        inner["e"] = dict(m["e"], args=[blk["expr"]])
+        blk["expr"] = inner
+        blk["ty"] = m.get("ty")
+        return blk, c
+
+    def expand(self, call, helper_path, caller_names, body=None):
+        fn, value = self.bodies[helper_path][:2]
+        if body is not None:
+            value = body
         if value is None:
             return None
         self.counter += 1
@@ -368,7 +532,7 @@ class HirInliner:
         helper_names = _local_names(fn["hir"])
         namemap = {}
         for nm in helper_names:
-            if nm in caller_names:
+            if (caller_names.clashes(nm, call.get("sp")) if isinstance(caller_names, _Names) else nm in caller_names):
                 namemap[nm] = "%s'%d" % (nm, k)
         base = 1000000 * k
 
@@ -400,7 +564,10 @@ class HirInliner:
         for l in lets:
             pass
         for nm in helper_names:
-            caller_names.add(namemap.get(nm, nm))
+            if isinstance(caller_names, _Names):
+                caller_names.add(namemap.get(nm, nm), sp)
+            else:
+                caller_names.add(namemap.get(nm, nm))
         bs, bt = _as_stmts(body)
         out = {"k": "Block", "stmts": lets + bs, "expr": bt, "unsafe": None, "label": None, "ty": call.get("ty"), "sp": sp,
                "inl": tag, "inlined_call": helper_path}
@@ -418,6 +585,13 @@ class HirInliner:
             return None
         if not isinstance(n, dict):
             return None
+        if n.get("k") == "Match":
+            # `helper(..)?` first: the helper's statements with its failure returns kept (before the call itself is looked at)
+            rep, c = self.expand_try(n, caller_names, targets)
+            if rep is not None:
+                done.append(c)
+                self.rewrite(rep, targets, caller_names, done)      # helper calls inside the arguments
+                return rep
         for key, v in list(n.items()):
             if isinstance(v, (dict, list)) and key not in ("sp", "osp"):
                 r = self.rewrite(v, targets, caller_names, done)
@@ -1024,6 +1198,11 @@ def apply(data, known=None):
     for old, newp in (data.get("renamed") or {}).items():
         data["inline_notes"].append("anchor %s found as %s (moved/renamed): analysed under its anchor name" % (old, newp))
     fns = {f["path"]: f for f in data["fns"]}
+    for f in data["fns"]:
+        if f.get("hir") and f["kind"] != "Closure":
+            nf = filter_loops(f["hir"]["body"])
+            if nf:
+                data["inline_notes"].append("%s: %d for-loop(s) over `.filter(..)` read as loops with a `continue` guard" % (f["path"], nf))
     cand = {p for p, f in fns.items() if f["kind"] in ("Fn", "AssocFn") and p not in known and f.get("mir") and f.get("hir")
             and not p.startswith("<") and p != "main"}
     if not cand:
@@ -1035,15 +1214,17 @@ def apply(data, known=None):
             graph[f["parent"]] = graph[f["parent"]] | graph[p]
 
     def reaches(a, b, seen=None):
+        # a cycle that passes through an anchored (never expanded) function ends there
         seen = seen or set()
         for c in graph.get(a, ()):
             if c == b:
                 return True
-            if c in fns and c not in seen:
+            if c in fns and c in cand0 and c not in seen:
                 seen.add(c)
                 if reaches(c, b, seen):
                     return True
         return False
+    cand0 = set(cand)
     rec = {p for p in cand if reaches(p, p)}
     for p in rec:
         data["inline_notes"].append("helper %s is recursive: not inlined" % p)
@@ -1071,11 +1252,18 @@ def apply(data, known=None):
         # expand previously processed helpers inside h first
         _expand_in(fns[h], expanded, fns, hi, data)
         try:
+            tri = body_for_try(fns[h]["hir"])
+        except Cannot as e2:
+            tri = None
+        try:
             val = body_as_value(fns[h]["hir"], fns[h]["hir"]["body"])
         except Cannot as e:
             val = None
-            data["inline_notes"].append("helper %s: HIR not inlined (%s); MIR inlined" % (h, e))
-        hi.bodies[h] = (fns[h], val)
+            if tri is not None:
+                data["inline_notes"].append("helper %s: expanded in HIR at its `?` call sites only (%s)" % (h, e))
+            else:
+                data["inline_notes"].append("helper %s: HIR not inlined (%s); MIR inlined" % (h, e))
+        hi.bodies[h] = (fns[h], val, tri)
         expanded.add(h)
     for p, f in list(fns.items()):
         if p in expanded:
@@ -1134,9 +1322,324 @@ def _splice(n):
                 out.extend(e.get("stmts") or [])
                 if e.get("expr") is not None:
                     out.append({"k": "SSemi", "e": e["expr"]})
+            elif st.get("k") == "SLet" and isinstance(st.get("init"), dict) and _strip(st["init"]).get("k") == "Block" \
+                    and _strip(st["init"]).get("inlined_call") and not _strip(st["init"]).get("label") \
+                    and _strip(st["init"]).get("expr") is not None and _strip(st["init"]).get("stmts"):
+                # `let PAT = { helper statements; value };`  ==>  helper statements; `let PAT = value;`
+                blk = _strip(st["init"])
+                out.extend(blk["stmts"])
+                out.append(dict(st, init=blk["expr"]))
             else:
                 out.append(st)
         n["stmts"] = out
+        sroa_block(n)
+
+
+_SROA = [0]
+
+
+def sroa_block(blk):
+    """Scalar replacement of a struct-literal local inside one block: `let mut s = S { f: e, .. }` whose every use is a field
+    projection `s.f` or one final by-value destructuring `let S { f: x, .. } = s` becomes one local per field (named after
+    the destructuring binding when there is one, else after the field): the shape the code has without the carrier struct."""
+    stmts = blk.get("stmts") or []
+    for si, st in enumerate(stmts):
+        if st.get("k") != "SLet" or st.get("els") is not None:
+            continue
+        pat = st.get("pat") or {}
+        init = _strip(st.get("init")) if st.get("init") else None
+        if pat.get("k") != "PBind" or pat.get("sub") is not None or not init or init.get("k") != "Struct" or init.get("base") is not None:
+            continue
+        sid = pat["id"]
+        scope = {"k": "Block", "stmts": stmts[si + 1:], "expr": blk.get("expr")}
+        uses = []       # (path node, parent)
+
+        def find(n, parent):
+            if isinstance(n, list):
+                for x in n:
+                    find(x, parent)
+                return
+            if not isinstance(n, dict):
+                return
+            if n.get("k") == "Path" and isinstance(n.get("to"), dict) and n["to"].get("res") == "local" and n["to"].get("id") == sid:
+                uses.append((n, parent))
+            for key, v in n.items():
+                if isinstance(v, (dict, list)) and key not in ("sp", "osp"):
+                    find(v, n if "k" in n else parent)
+        find(scope, None)
+        if not uses:
+            continue
+        field_uses, destr = [], []
+        ok = True
+        for u, par in uses:
+            if par is not None and par.get("k") == "Field" and par.get("e") is u:
+                field_uses.append(par)
+            elif par is not None and par.get("k") == "SLet" and par.get("init") is u and par.get("els") is None \
+                    and (par.get("pat") or {}).get("k") == "PStruct" \
+                    and all(f["pat"].get("k") == "PWild" or (f["pat"].get("k") == "PBind" and f["pat"].get("sub") is None
+                                                             and "Ref" not in str(f["pat"].get("mode"))) for f in par["pat"]["fields"]):
+                destr.append(par)
+            else:
+                ok = False
+        if not ok or len(destr) > 1:
+            continue
+        d = destr[0] if destr else None
+        if d is not None and d not in stmts:
+            continue     # destructured in a nested scope: leave it
+        if d is not None and any(_pos(fu.get("sp")) > _pos(d.get("sp"), True) for fu in field_uses):
+            continue
+        bound = {f["name"]: f["pat"] for f in d["pat"]["fields"] if f["pat"].get("k") == "PBind"} if d is not None else {}
+        new = {}
+        lets = []
+        for f in init["fields"]:
+            b = bound.get(f["name"])
+            if b is not None:
+                lid, name = b["id"], b["name"]
+            else:
+                _SROA[0] += 1
+                lid, name = 8000000 + _SROA[0], "%s.%s" % (pat["name"], f["name"])
+            new[f["name"]] = (lid, name)
+            lets.append({"k": "SLet", "pat": {"k": "PBind", "name": name, "id": lid, "mode": "BindingMode(No, Mut)", "sub": None,
+                                              "ty": f["e"].get("ty"), "sp": st.get("sp")},
+                         "init": f["e"], "els": None, "sp": st.get("sp")})
+        if any(fu["name"] not in new for fu in field_uses):
+            continue
+        for fu in field_uses:
+            lid, name = new[fu["name"]]
+            keep = {k_: fu[k_] for k_ in ("ty", "sp", "osp", "inl", "mac") if k_ in fu}
+            fu.clear()
+            fu.update(keep)
+            fu.update({"k": "Path", "to": {"res": "local", "name": name, "id": lid}})
+        out = stmts[:si] + lets + [x for x in stmts[si + 1:] if x is not d]
+        blk["stmts"] = out
+        return sroa_block(blk)
+
+
+def _has_bind(n):
+    if isinstance(n, list):
+        return any(_has_bind(x) for x in n)
+    if not isinstance(n, dict):
+        return False
+    if n.get("k") == "PBind":
+        return True
+    return any(_has_bind(v) for k_, v in n.items() if isinstance(v, (dict, list)) and k_ not in ("sp", "osp"))
+
+
+def _option_leaves(e, on_none, on_some, count):
+    """rebuild expression e (whose value is an Option built on the spot) with every `None` leaf replaced by on_none() and every
+    `Some(v)` leaf by on_some(v); count=[n_none, n_some] is filled on the way.  Raises Cannot on any other leaf."""
+    e0 = _strip(e)
+    k = e0.get("k")
+    if k == "Block" and not e0.get("label") and e0.get("expr") is not None:
+        return dict(e0, expr=_option_leaves(e0["expr"], on_none, on_some, count))
+    if k == "If" and e0.get("else") is not None and not (isinstance(e0.get("cond"), dict) and e0["cond"].get("k") == "Let" and False):
+        return dict(e0, then=_option_leaves(e0["then"], on_none, on_some, count), **{"else": _option_leaves(e0["else"], on_none, on_some, count)})
+    if k == "Match" and e0.get("src") in (None, "Normal"):
+        return dict(e0, arms=[dict(a, body=_option_leaves(a["body"], on_none, on_some, count)) for a in e0["arms"]])
+    if k == "Ret" or k == "Continue" or k == "Break":
+        return e0
+    name, node = _ctor_of(e0)
+    if name == "None" and node.get("k") == "Path":
+        count[0] += 1
+        return on_none()
+    if name == "Some" and node.get("k") == "Call" and len(node.get("args") or []) == 1:
+        count[1] += 1
+        return on_some(node["args"][0])
+    raise Cannot("leaf is not an Option constructor")
+
+
+def _try_leaves(e, kind, fail, count):
+    """value of `e?`: success leaves Some(v) / Ok(v) -> v; failure leaves None / Err(x) -> fail(leaf)"""
+    e0 = _strip(e)
+    k = e0.get("k")
+    if k == "Block" and not e0.get("label") and e0.get("expr") is not None:
+        return dict(e0, expr=_try_leaves(e0["expr"], kind, fail, count))
+    if k == "If" and e0.get("else") is not None:
+        return dict(e0, then=_try_leaves(e0["then"], kind, fail, count), **{"else": _try_leaves(e0["else"], kind, fail, count)})
+    if k == "Match" and e0.get("src") in (None, "Normal"):
+        return dict(e0, arms=[dict(a, body=_try_leaves(a["body"], kind, fail, count)) for a in e0["arms"]])
+    if k in ("Ret", "Continue", "Break"):
+        return e0
+    name, node = _ctor_of(e0)
+    ok, bad = ("Some", "None") if kind == "Option" else ("Ok", "Err")
+    if name == ok and node.get("k") == "Call" and len(node.get("args") or []) == 1:
+        count[1] += 1
+        return node["args"][0]
+    if name == bad and ((kind == "Option" and node.get("k") == "Path") or (kind == "Result" and node.get("k") == "Call")):
+        count[0] += 1
+        return fail(e0)
+    raise Cannot("leaf is not built on the spot")
+
+
+def _retype(n, ty):
+    """the rebuilt control structure has the type of the `if let` it replaces"""
+    n0 = n
+    if isinstance(n0, dict) and n0.get("k") in ("Block", "If", "Match"):
+        n0["ty"] = ty
+        if n0["k"] == "Block" and n0.get("expr") is not None:
+            _retype(n0["expr"], ty)
+        elif n0["k"] == "If":
+            _retype(n0["then"], ty)
+            if n0.get("else") is not None:
+                _retype(n0["else"], ty)
+        elif n0["k"] == "Match":
+            for a in n0["arms"]:
+                _retype(a["body"], ty)
+
+
+def case_of_case(n):
+    """`if let Some(p) = { ..; if c { None } else { Some(v) } } { A } else { B }`  ==>  `{ ..; if c { B } else { let p = v; A } }`
+    (an expanded Option-returning helper consumed on the spot): the shape the code has without the helper.  Only when A is not
+    duplicated (one Some leaf) and B binds nothing.  Bottom-up over the tree; returns the replacement or None."""
+    if isinstance(n, list):
+        for i, x in enumerate(n):
+            r = case_of_case(x)
+            if r is not None:
+                n[i] = r
+        return None
+    if not isinstance(n, dict):
+        return None
+    for key, v in list(n.items()):
+        if isinstance(v, (dict, list)) and key not in ("sp", "osp"):
+            r = case_of_case(v)
+            if r is not None:
+                n[key] = r
+    if n.get("k") == "Match" and isinstance(n.get("e"), dict) and n["e"].get("k") == "Call" \
+            and str(hir.callee_of(n["e"]) or "").endswith("Try::branch") and len(n["e"].get("args") or []) == 1:
+        # `E?` with E an expanded helper whose value is built on the spot: Some(v) / Ok(v) leaves become v, failure leaves return
+        e0 = _strip(n["e"]["args"][0])
+        if not (isinstance(e0, dict) and e0.get("k") in ("Block", "If", "Match") and _contains_inl(e0)):
+            return None
+        here = None
+        for a in n.get("arms") or []:
+            for x, _ in hir.walk(a["body"]):
+                if x.get("k") == "Ret" and isinstance(x.get("e"), dict):
+                    here = (x, _err_type(x["e"].get("ty")))
+        if here is None or here[1] is None or here[1] != _err_type(e0.get("ty")):
+            return None
+        ret_node, rt = here
+
+        def fail(node):
+            return {"k": "Ret", "e": node, "ty": "!", "sp": n.get("sp"), "mac": ret_node.get("mac")}
+        count = [0, 0]
+        try:
+            out = _try_leaves(copy.copy(e0), rt[0], fail, count)
+        except Cannot:
+            return None
+        if not count[1]:
+            return None
+        _retype(out, n.get("ty"))
+        return out
+    if n.get("k") != "If" or not isinstance(n.get("cond"), dict) or n["cond"].get("k") != "Let":
+        return None
+    pat, init = n["cond"].get("pat") or {}, n["cond"].get("init")
+    if not (pat.get("k") == "PTupleStruct" and str((pat.get("to") or {}).get("path", "")).endswith("::Some") and len(pat.get("pats") or []) == 1):
+        return None
+    i0 = _strip(init)
+    if not (isinstance(i0, dict) and i0.get("k") in ("Block", "If", "Match") and _contains_inl(i0)):
+        return None
+    B = n.get("else")
+    if B is not None and _has_bind(B):
+        return None
+    A = n["then"]
+    inner = pat["pats"][0]
+
+    def on_none():
+        return copy.deepcopy(B) if B is not None else _block([], None, n, "()")
+
+    def on_some(v):
+        return _block([{"k": "SLet", "pat": inner, "init": v, "els": None, "sp": n.get("sp")}] + _as_stmts(A)[0], _as_stmts(A)[1], n, n.get("ty"))
+    count = [0, 0]
+    try:
+        out = _option_leaves(copy.copy(i0), on_none, on_some, count)
+    except Cannot:
+        return None
+    if count[1] != 1:
+        return None
+    _retype(out, n.get("ty"))
+    return out
+
+
+def _contains_inl(n):
+    if isinstance(n, list):
+        return any(_contains_inl(x) for x in n)
+    if not isinstance(n, dict):
+        return False
+    if n.get("inlined_call") or n.get("inl"):
+        return True
+    return any(_contains_inl(v) for k_, v in n.items() if isinstance(v, (dict, list)) and k_ not in ("sp", "osp"))
+
+
+def filter_loops(n, notes=None):
+    """`for PAT in it.filter(|q| c(q)) { body }`  ==>  `for PAT in it { if !c(PAT's binding) { continue; } body }` - what the adapter
+    does, written as the guard the loop body would otherwise start with.  Only when PAT binds one name (x / &x / &mut x), which
+    then stands for the closure parameter (reference levels do not matter to the rules).  In place; returns number rewritten."""
+    cnt = 0
+    if isinstance(n, list):
+        return sum(filter_loops(x, notes) for x in n)
+    if not isinstance(n, dict):
+        return 0
+    for key, v in n.items():
+        if isinstance(v, (dict, list)) and key not in ("sp", "osp"):
+            cnt += filter_loops(v, notes)
+    if not (n.get("k") == "Match" and n.get("src") == "ForLoopDesugar" and isinstance(n.get("e"), dict) and n["e"].get("k") == "Call"
+            and len(n["e"].get("args") or []) == 1 and len(n.get("arms") or []) == 1):
+        return cnt
+    it = _strip(n["e"]["args"][0])
+    if not (it.get("k") == "MethodCall" and it.get("name") == "filter" and str(hir.callee_of(it) or "").endswith("Iterator::filter")
+            and len(it.get("args") or []) == 1 and _strip(it["args"][0]).get("k") == "Closure"):
+        return cnt
+    clo = _strip(it["args"][0])
+    if len(clo.get("params") or []) != 1 or not isinstance(clo.get("body"), dict):
+        return cnt
+    q = clo["params"][0]
+    q = q.get("pat", q)
+    while q.get("k") == "PRef":
+        q = q["pat"]
+    if q.get("k") != "PBind" or q.get("sub") is not None:
+        return cnt
+    lp = n["arms"][0]["body"]
+    while isinstance(lp, dict) and lp.get("k") != "Loop":
+        lp = lp.get("expr") if lp.get("k") == "Block" and not lp.get("stmts") else None
+    if not lp or len(lp.get("stmts") or []) != 1 and lp.get("expr") is None:
+        return cnt
+    nx = _strip(lp["stmts"][0] if lp.get("stmts") else lp["expr"])
+    if nx.get("k") == "SSemi":
+        nx = _strip(nx["e"])
+    if not (nx.get("k") == "Match" and str(hir.callee_of(nx.get("e") or {}) or "").endswith("Iterator::next")):
+        return cnt
+    def payload(p_):
+        if p_.get("k") == "PTupleStruct" and len(p_.get("pats") or []) == 1:
+            return p_["pats"][0]
+        if p_.get("k") == "PStruct" and len(p_.get("fields") or []) == 1:       # the desugaring's `Some { 0: PAT }`
+            return p_["fields"][0]["pat"]
+        return None
+    some = [a for a in nx["arms"] if payload(a["pat"]) is not None]
+    if len(some) != 1:
+        return cnt
+    pat = payload(some[0]["pat"])
+    while pat.get("k") == "PRef":
+        pat = pat["pat"]
+    if pat.get("k") != "PBind" or pat.get("sub") is not None:
+        return cnt
+    elem = {"k": "Path", "to": {"res": "local", "name": pat["name"], "id": pat["id"]}, "ty": pat.get("ty"), "sp": clo.get("sp")}
+    cond = copy.deepcopy(clo["body"])
+    wrap = {"w": cond}
+    _subst_paths(wrap, {q["id"]: elem})
+    cond = wrap["w"]
+    sp = clo.get("sp")
+    guard = {"k": "If", "cond": {"k": "Unary", "op": "Not", "e": cond, "ty": "bool", "sp": sp},
+             "then": {"k": "Block", "stmts": [{"k": "SSemi", "e": {"k": "Continue", "label": None, "ty": "!", "sp": sp}}], "expr": None,
+                      "unsafe": None, "label": None, "ty": "()", "sp": sp},
+             "else": None, "ty": "()", "sp": sp}
+    body = some[0]["body"]
+    bs, bt = _as_stmts(body)
+    some[0]["body"] = {"k": "Block", "stmts": [guard] + bs, "expr": bt, "unsafe": None, "label": None, "ty": body.get("ty", "()"),
+                       "sp": body.get("sp")}
+    n["e"]["args"][0] = it["recv"]
+    if notes is not None:
+        notes.append("for-loop over `.filter(..)` read as a loop with a `continue` guard")
+    return cnt + 1
 
 
 def _expand_in(f, targets, fns, hi, data):
@@ -1160,12 +1663,15 @@ def _expand_in(f, targets, fns, hi, data):
                     break
     h = f.get("hir")
     if h:
-        names = _local_names(h)
+        names = _Names.of(h)
         done = []
         r = hi.rewrite(h["body"], targets, names, done)
         if r is not None:
             h["body"] = r
         if done:
             _splice(h["body"])
+            r = case_of_case(h["body"])
+            if r is not None:
+                h["body"] = r
         if len(done) != n_mir and f["kind"] != "Closure":
             data["inline_notes"].append("%s: %d helper calls expanded in MIR, %d in HIR" % (f["path"], n_mir, len(done)))
